@@ -47,3 +47,7 @@ def run(ctx, rep):
     from .effects_lib import check_no_effects
     check_no_effects(ctx, r8, [T.qf, ctx.func("chartparse.sync.BPMEvents.timestamp_at_tick_no_optimize_return")] +
                      ([T.idxf] if T.idxf else []) + ([T.secf] if T.secf else []))
+    rch = rep.rule("chain", "file -> lines (read().splitlines(), utf-8-sig) -> framing -> section route -> dispatcher -> builders: every link "
+                            "hands the lines on unchanged", floor=10)
+    from .chain import check_chain
+    check_chain(ctx, rch, "all", strict=False)
